@@ -70,8 +70,10 @@ Theorem C12_avail_recase : forall vars funcs specials ctxs sps sigok e e',
 Proof. exact avail_recase. Qed.
 Print Assumptions C12_avail_recase.
 
-(* the call sites of rule_expression.go, extracted on every run, are the modelled ones *)
-Theorem C12_route_sites_match_model : GenRouteSites.sites = model_sites.
+(* the call sites of rule_expression.go, extracted on every run, are the modelled ones
+   (the three booleans: which of the anticipated repairs of the C03-defect sites are present) *)
+Theorem C12_route_sites_match_model : exists req_in req_sec inc_elem,
+  forall s, In s GenRouteSites.sites <-> In s (model_sites req_in req_sec inc_elem).
 Proof. exact route_sites_match_model. Qed.
 Print Assumptions C12_route_sites_match_model.
 
